@@ -226,6 +226,9 @@ Bite(pol, req, inner) ==
    acma   |-> IF opt /\ pol.maxage # "" THEN <<pol.maxage>> ELSE <<>>,
    acah   |-> IF ~opt THEN <<>> ELSE IF pol.allowh.set THEN pol.allowh.list ELSE IF req.acrh.set THEN req.acrh.list ELSE <<>>,
    acam   |-> inner.acam]
+\* a gate (the harness's refusing fang on a mounted application) answers 401 with a body to everything but OPTIONS under its mount prefix
+Gated(apps, req) == req.method # "OPTIONS" /\ \E mt \in Covering(apps, Normalize(req.path, req.trailing)) : apps[mt.app].fangs # <<>>
+GateInner(req) == [status |-> 401, body |-> req.method # "HEAD", acam |-> <<>>]
 Mech(rt, pol, req) == Bite(pol, req, Inner(rt, req, FALSE))
 MechBT(rt, pol, req) == Bite(pol, req, Inner(rt, req, TRUE))
 
